@@ -317,7 +317,11 @@ void ts_subtree_compress(
       grandchild.data.is_inline ||
       grandchild.ptr->child_count < 2 ||
       grandchild.ptr->ref_count > 1 ||
-      grandchild.ptr->symbol != symbol
+      grandchild.ptr->symbol != symbol ||
+      // Only a node of the recursive production `aux -> aux aux` may take part
+      // in a rotation. The base production of a repetition can have two or more
+      // children as well (`aux -> ',' item`); its children are not repetitions.
+      grandchild.ptr->repeat_depth == 0
     ) break;
 
     ts_subtree_children(tree)[0] = ts_subtree_from_mut(grandchild);
